@@ -702,6 +702,13 @@ _PURE_BUILTINS = frozenset(("dict", "list", "tuple", "set", "frozenset", "len", 
 _NEG = {"IsNot": "Is", "NotEq": "Eq", "NotIn": "In"}
 
 
+def branches(t):
+    """the terms a conditional term may denote (a mutation of `a if c else b` mutates a or b)"""
+    if isinstance(t, tuple) and t and t[0] == "ite":
+        return branches(t[2]) + branches(t[3])
+    return [t]
+
+
 def _canon_name(f):
     if isinstance(f, tuple):
         if f[0] == "var":
